@@ -98,13 +98,13 @@ var consumerSpecs = []consumerSpec{
 func init() {
 	register(&propDef{
 		id:      "C32",
-		explain: "Decides, by constant evaluation of /repo's source (no execution): (R1) each of the 8 byte-class table constants in bytesconv_table.go has the required length and every entry equals a reference predicate written independently in the checker from RFC 3986 2.3 / RFC 9110 (exhaustive over all byte values); (R2) every indexing of a table shorter than 256 entries is guarded by a bound test on the index; (R3) the comparison each consumer applies to the looked-up entry (e.g. table[c] == 1, < 16, != 0), folded over all 256 entries, equals the reference predicate of that consumer; (R4) the switch in AppendHTMLEscape maps exactly the five bytes of html.EscapeString to its five replacements; (R5) header-name canonicalisation upper-cases the first byte and each byte after '-' and lower-cases the rest using those tables. NOT decided: equality of normalizeHeaderKey with net/textproto for every token as a whole-string function, and the escaping functions' output strings.",
+		explain: "Decides, by constant evaluation of /repo's source (no execution): (R1) each of the 8 byte-class table constants in bytesconv_table.go has the required length and every entry equals a reference predicate written independently in the checker from RFC 3986 2.3 / RFC 9110 (exhaustive over all byte values); (R2) every indexing of a table shorter than 256 entries is guarded by a bound test on the index; (R3) the comparison each consumer applies to the looked-up entry (e.g. table[c] == 1, < 16, != 0), folded over all 256 entries, equals the reference predicate of that consumer; (R4) the switch in AppendHTMLEscape maps exactly the five bytes of html.EscapeString to its five replacements; (R6) every return of AppendHTMLEscape lies behind the per-byte loop with that switch, or behind a shortcut whose test covers all five escaped bytes; (R5) header-name canonicalisation upper-cases the first byte and each byte after '-' and lower-cases the rest using those tables. NOT decided: equality of normalizeHeaderKey with net/textproto for every token as a whole-string function, and the escaping functions' output strings.",
 		assume:  []string{"reference predicates in checker/rules_c32_c30.go are a faithful transcription of RFC 3986 2.3, RFC 9110 5.6.2/5.5 and html.EscapeString"},
 		run:     runC32,
 	})
 	register(&propDef{
 		id:      "C30",
-		explain: "Decides structural/arithmetical necessary conditions of the integer codecs on the analysed GOARCH (amd64; thorough adds 386): (R1) the constants the overflow guard relies on satisfy, in exact big-integer arithmetic, maxIntDiv10 = floor(MaxInt/10), 10^maxSafeIntDigits-1 <= MaxInt, 10*maxIntDiv10+9 < 2^wordsize (so one sign test is decisive), 16^maxHexIntChars-1 <= MaxInt and the hex buffer holds every digit of MaxInt; (R2) in parseUintBuf every path that carries the new accumulator into the next iteration has passed either the 'few digits' test or both overflow tests with the overflow outcome excluded; (R3) in readHexInt the shift-accumulate is only reached with the digit count below maxHexIntChars; (R4) ParseUint returns an error when parseUintBuf consumed less than the whole input; (R5) AppendUint and writeHexInt reject negative input before formatting; (R6) in the integer formatters a scratch buffer taken from a pool is given back only after its last use: once Put was called nothing that derives from the pooled value (the asserted buffer, a slice of it) is read or written, since the next Get may hand it to a concurrent or re-entrant formatter that overwrites the digits. (R7) in parseUintBuf the value returned without error is, followed back through its merges, built only from constants and accumulate steps 10*acc + (byte-'0') that are reached only when the byte failed the test 'byte-'0' > 9' - no byte contributes to the value without having passed the digit test. NOT decided: the accepted language of ParseUint as a whole, AppendUint/ParseUint being inverse, values of chunk sizes.",
+		explain: "Decides structural/arithmetical necessary conditions of the integer codecs on the analysed GOARCH (amd64; thorough adds 386): (R1) the constants the overflow guard relies on satisfy, in exact big-integer arithmetic, maxIntDiv10 = floor(MaxInt/10), 10^maxSafeIntDigits-1 <= MaxInt, 10*maxIntDiv10+9 < 2^wordsize (so one sign test is decisive), 16^maxHexIntChars-1 <= MaxInt and the hex buffer holds every digit of MaxInt; (R2) in parseUintBuf every path that carries the new accumulator into the next iteration has passed either the 'few digits' test or both overflow tests with the overflow outcome excluded; (R3) in readHexInt the shift-accumulate is only reached with the digit count below maxHexIntChars; (R4) ParseUint returns an error when parseUintBuf consumed less than the whole input; (R5) AppendUint and writeHexInt reject negative input before formatting; (R6) in the integer formatters a scratch buffer taken from a pool is given back only after its last use: once Put was called nothing that derives from the pooled value (the asserted buffer, a slice of it) is read or written, since the next Get may hand it to a concurrent or re-entrant formatter that overwrites the digits. (R7) in parseUintBuf the value returned without error is, followed back through its merges, built only from constants and accumulate steps 10*acc + (byte-'0') that are reached only when the byte failed the test 'byte-'0' > 9' - no byte contributes to the value without having passed the digit test. (R8) no return of ParseUint is reachable without the scan by parseUintBuf - nothing is accepted or rejected on the input's length alone. NOT decided: the accepted language of ParseUint as a whole, AppendUint/ParseUint being inverse, values of chunk sizes.",
 		run:     runC30,
 	})
 }
@@ -260,6 +260,7 @@ func runC32(p *Prog, r *Report) {
 			}
 		}
 		r.Check("R4", "AppendHTMLEscape mapping", okAll, p.Pos(fn.Pos()), fmt.Sprintf("switch maps %v; html.EscapeString maps %v", fmtMap(got), fmtMap(want)))
+		htmlEscapeSeesEveryByte(p, r)
 	}
 
 	// R5 canonicalisation shape
@@ -532,6 +533,7 @@ func evalCmp(op token.Token, entry, k int64, entryLeft bool) bool {
 func runC30(p *Prog, r *Report) {
 	scratchNotRecycledEarly(p, r)
 	digitsOnlyAccumulate(p, r)
+	verdictFromTheScanOnly(p, r)
 	pkg := p.byPath[rootPkg].Types
 	wordBits := 64
 	if p.Arch == "386" || p.Arch == "arm" {
@@ -1226,4 +1228,97 @@ func digitsOnlyAccumulate(p *Prog, r *Report) {
 	sort.Strings(bad)
 	r.Check("R7", "parseUintBuf: every byte that contributes to a value returned without error has passed the digit test", len(bad) == 0 && steps > 0 && rets > 0, p.Pos(fn.Pos()),
 		strings.Join(bad, "; ")+" - ParseUint would return a number for input that is not an ASCII decimal string (Content-Length, Range and cookie max-age go through it)")
+}
+
+// verdictFromTheScanOnly (C30.R8): ParseUint accepts exactly the decimal strings whose value fits an int. Whether
+// a string qualifies is decided by scanning it (leading zeros make long strings with small values): no return of
+// ParseUint is reachable without the scan, so nothing - a length shortcut in particular - accepts or rejects
+// before the digits were looked at.
+func verdictFromTheScanOnly(p *Prog, r *Report) {
+	fn := p.Func("ParseUint")
+	scan := p.Func("parseUintBuf")
+	if fn == nil || scan == nil {
+		r.Undecided("R8", "ParseUint / parseUintBuf", "not found")
+		return
+	}
+	hit, path := reachAvoiding(fn, nil, isReturn, func(i ssa.Instruction) bool {
+		c, ok := i.(ssa.CallInstruction)
+		return ok && c.Common().StaticCallee() == scan
+	}, nil)
+	r.Check("R8", "ParseUint: every return follows the scan of the input by parseUintBuf", hit == nil, p.Pos(fn.Pos()),
+		"a return is reachable before the digits were scanned: a verdict taken from the length of the input alone rejects zero-padded numerals whose value fits an int (or accepts something the scan would refuse)", blocksString(p, path)...)
+}
+
+// htmlEscapeSeesEveryByte (C32.R6): the five replacements of R4 only help if every byte reaches the switch. Each
+// return of AppendHTMLEscape lies behind the per-byte loop, or behind a fast path whose test covers all five
+// escaped bytes (IndexAny / ContainsAny with a constant set that contains them all).
+func htmlEscapeSeesEveryByte(p *Prog, r *Report) {
+	fn := p.Func("AppendHTMLEscape")
+	if fn == nil {
+		r.Undecided("R6", "AppendHTMLEscape", "not found")
+		return
+	}
+	// the loop that inspects the bytes: the loop header of the block that loads s[i] for the switch
+	var header *ssa.BasicBlock
+	for _, b := range fn.Blocks {
+		for _, in := range b.Instrs {
+			var base ssa.Value
+			switch w := in.(type) {
+			case *ssa.Lookup:
+				base = w.X
+			case *ssa.Index:
+				base = w.X
+			}
+			if base == ssa.Value(fn.Params[1]) {
+				if h := loopHeaderOf(b); h != nil {
+					header = h
+				}
+			}
+		}
+	}
+	if header == nil {
+		r.Undecided("R6", "AppendHTMLEscape: per-byte loop", "not recognised")
+		return
+	}
+	want := []byte{'&', '<', '>', '"', '\''}
+	var bad []string
+	for _, b := range fn.Blocks {
+		rt, ok := b.Instrs[len(b.Instrs)-1].(*ssa.Return)
+		if !ok {
+			continue
+		}
+		if header.Dominates(b) {
+			continue
+		}
+		covered := false
+		for _, g := range guardsOfDepth(b, 0) {
+			bo, ok := g.Cond.(*ssa.BinOp)
+			if !ok {
+				continue
+			}
+			c, ok := bo.X.(*ssa.Call)
+			if !ok || c.Call.StaticCallee() == nil || !(strings.HasSuffix(c.Call.StaticCallee().Name(), "IndexAny") || strings.HasSuffix(c.Call.StaticCallee().Name(), "ContainsAny")) || len(c.Call.Args) != 2 {
+				continue
+			}
+			set, ok := stringConst(c.Call.Args[1])
+			if !ok {
+				continue
+			}
+			all := true
+			for _, w := range want {
+				if !strings.ContainsRune(set, rune(w)) {
+					all = false
+				}
+			}
+			if all {
+				covered = true
+			}
+		}
+		if !covered {
+			bad = append(bad, p.Pos(rt.Pos()))
+		}
+	}
+	sort.Strings(bad)
+	r.Check("R6", "AppendHTMLEscape: every return lies behind the per-byte switch or behind a test that covers all five escaped bytes", len(bad) == 0, p.Pos(fn.Pos()),
+		"returns at "+strings.Join(bad, ", ")+" copy the input without every byte having reached the switch: a string whose only special byte is not in the shortcut's set (an apostrophe) goes out unescaped, unlike html.EscapeString")
 }
